@@ -194,6 +194,21 @@ Definition run_with_analysis_modelled : list string :=
    "self.optimization_plan = None";
    "&self.errors"]%string.
 
+(* summary.rs as modelled below ([note_event], [push_unique_bounded], [sstep]): which functions
+   charge the budget, and the source text of the charging functions; and every reference to the
+   caps outside limits.rs (the preflight gate and the one run-time budget) *)
+Definition budget_charge_sites_modelled : list (string * Z) :=
+  [("summarize_component", 1); ("push_unique_bounded", 1)]%string.
+Definition note_event_modelled : string :=
+  "if self.remaining_events == 0 { return Err(BudgetExceeded); } self.remaining_events -= 1; Ok(())"%string.
+Definition push_unique_bounded_modelled : string :=
+  "if dst.contains(&item) { return Ok(false); } budget.note_event()?; dst.push(item); Ok(true)"%string.
+Definition class_charge_guard_modelled : string :=
+  "caller_summary.transitive_class != transitive_class"%string.
+Definition caps_users_modelled : list (string * list string) :=
+  [("src/analysis/summary.rs", ["DEFAULT_CAPS.max_summary_events"]);
+   ("src/resolver.rs", ["limits::DEFAULT_CAPS"; "limits::first_exceeded_limit"])]%string.
+
 (* the same two bounds in unbounded arithmetic *)
 Definition summary_exact (fcount lcount : Z) : Z := fcount * (fcount + (lcount * 2 + 2)).
 Definition fn_events_exact (x : fn_counts) : Z := (fc_blocks x * 2 + fc_ops x) * fc_locals x.
@@ -341,6 +356,86 @@ Fixpoint note_events (n : nat) (remaining : Z) : option Z :=
   match n with
   | O => Some remaining
   | S n' => match note_event remaining with Some r => note_events n' r | None => None end
+  end.
+
+(* ------------------------------------------------------------------------------------ *)
+(** * Run-time accounting of the summary fixpoint (summary.rs) *)
+
+(* What the fixpoint stores per function: transitive callees (function ids), transitive capture
+   reads and writes (local ids) and the steps of transitive_class above PureNoTrap
+   (1 = PureMayTrap, 2 = Impure).  One duplicate-free table of entries (kind, owner, item). *)
+Inductive skind := KCallee | KRead | KWrite | KClass.
+
+Definition skind_eqb (a b : skind) : bool :=
+  match a, b with
+  | KCallee, KCallee | KRead, KRead | KWrite, KWrite | KClass, KClass => true
+  | _, _ => false
+  end.
+
+Record sentry := mkEntry { e_kind : skind; e_owner : nat; e_item : nat }.
+
+Definition sentry_eqb (a b : sentry) : bool :=
+  skind_eqb (e_kind a) (e_kind b) && Nat.eqb (e_owner a) (e_owner b) && Nat.eqb (e_item a) (e_item b).
+
+Definition smem (x : sentry) (g : list sentry) : bool := existsb (sentry_eqb x) g.
+
+(* push_unique_bounded: `if dst.contains(&item) { return Ok(false); } budget.note_event()?;
+   dst.push(item); Ok(true)` — the membership test comes first, only an insertion is charged *)
+Definition push_unique_bounded (g : list sentry) (x : sentry) (budget : Z)
+  : option (list sentry * Z) :=
+  if smem x g then Some (g, budget)
+  else match note_event budget with
+       | None => None                          (* Err(BudgetExceeded) *)
+       | Some b => Some (g ++ [x], b)
+       end.
+
+(* the class of a function as recorded so far *)
+Definition class_level (g : list sentry) (f : nat) : nat :=
+  if smem (mkEntry KClass f 2) g then 2 else if smem (mkEntry KClass f 1) g then 1 else 0.
+
+(* one step of summarize_component as far as the budget is concerned *)
+Inductive sop :=
+| OPush (k : skind) (owner item : nat)       (* extend_unique -> push_unique_bounded *)
+| OClass (owner new_level : nat).            (* `if transitive_class != joined { note_event()?; .. }` *)
+
+Definition sstep (g : list sentry) (budget : Z) (o : sop) : option (list sentry * Z) :=
+  match o with
+  | OPush k f i => push_unique_bounded g (mkEntry k f i) budget
+  | OClass f n =>
+      (* the joined class never decreases; a change is charged once *)
+      if Nat.ltb (class_level g f) n then push_unique_bounded g (mkEntry KClass f n) budget
+      else Some (g, budget)
+  end.
+
+Fixpoint srun (ops : list sop) (g : list sentry) (budget : Z) : option (list sentry * Z) :=
+  match ops with
+  | [] => Some (g, budget)
+  | o :: r => match sstep g budget o with Some (g', b') => srun r g' b' | None => None end
+  end.
+
+(* entries a program with F functions and L locals can ever store *)
+Definition sentry_ok (F L : nat) (x : sentry) : Prop :=
+  (e_owner x < F)%nat /\
+  match e_kind x with
+  | KCallee => (e_item x < F)%nat
+  | KRead | KWrite => (e_item x < L)%nat
+  | KClass => (1 <= e_item x <= 2)%nat
+  end.
+
+Definition sop_ok (F L : nat) (o : sop) : Prop :=
+  match o with
+  | OPush KClass _ _ => False
+  | OPush k f i => sentry_ok F L (mkEntry k f i)
+  | OClass f n => (f < F)%nat /\ (n <= 2)%nat
+  end.
+
+(* the same steps when the charge is made before the membership test (every probe is charged):
+   NOT what summary.rs does; kept to show that the order matters *)
+Definition push_probe_charged (g : list sentry) (x : sentry) (budget : Z)
+  : option (list sentry * Z) :=
+  match note_event budget with
+  | None => None
+  | Some b => if smem x g then Some (g, b) else Some (g ++ [x], b)
   end.
 
 (* ------------------------------------------------------------------------------------ *)
